@@ -944,7 +944,17 @@ func rulePrimWire(p *Prog, r *Result) {
 					if nm == "strconv.ParseInt" {
 						b10, _ := constInt(c.Call.Args[1])
 						b64, _ := constInt(c.Call.Args[2])
-						if b10 == 10 && b64 == 64 {
+						// the text handed to ParseInt must be the function's string / []byte argument itself
+						// (the type-switch case value), not a re-rendering of something else
+						onText := derivesFrom(c.Call.Args[0], func(v ssa.Value) bool {
+							ta, ok := v.(*ssa.TypeAssert)
+							if !ok {
+								return false
+							}
+							ts := types.TypeString(ta.AssertedType, nil)
+							return ts == "string" || ts == "[]byte" || ts == "[]uint8"
+						})
+						if b10 == 10 && b64 == 64 && onText {
 							base10 = true
 						}
 					}
